@@ -14,7 +14,8 @@ made so far persist, as the specification says).  Reply:
 
     INST := inst-ok | inst-trap/<why> | inst-oof | inst-stuck/<why>      (the rest is omitted unless inst-ok)
     CALL := v:BITS,BITS…[!][~H] | trap/<why>[!][~H] | oof | stuck/<why>
-            (`!`: store.nanBits is set after the call; `~H`: hazard mask of this call, omitted when 0)
+            (`!`: nanBits was set DURING this call (the flag is cleared before every call; whether it taints later calls of a
+             stateful instance is the harness's business); `~H`: hazard mask of this call, omitted when 0)
 
 Values are raw bit patterns; NaN results are canonical.  Memory is listed as its maximal runs of
 non-zero bytes.  After `oof` (fuel exhausted) or `stuck` the remaining calls are not run.
@@ -65,7 +66,7 @@ def runCalls (m : Module) (fuel : Nat) : Store → List (Nat × List Nat) → Li
     match mkArgs m fi bits with
     | none => (s, ("stuck/bad-call" :: acc).reverse)
     | some args =>
-      match invoke m { s with hazards := 0 } fi args fuel with
+      match invoke m { s with hazards := 0, nanBits := false } fi args fuel with
       | .values vs s' => runCalls m fuel s' rest (("v:" ++ showVals vs ++ flag s') :: acc)
       | .trap w s' => runCalls m fuel s' rest (("trap/" ++ dash w ++ flag s') :: acc)
       | .outOfFuel => (s, ("oof" :: acc).reverse)
